@@ -1005,7 +1005,7 @@ func TestVerifC10TunnelIDs(t *testing.T) {
 		run.Case(fmt.Sprintf("reuse|%d|%s", i, shape), c.detail(run.Seed))
 		link := c10Dial(t, ln)
 		// tunnel 1
-		t1 := &c10Dir{Ending: "close", DataSeed: r.Uint64(), ReadSeed: r.Int63(), BufClass: "small",
+		t1 := &c10Dir{Ending: "close", DataSeed: r.Uint64(), ReadSeed: r.Int63(), BufClass: "small", PostEOF: true,
 			Ops: []c10Op{{Write: 1 + r.Intn(2000)}}}
 		var o1 c10DirOutcome
 		a1, b1 := NewFrameStream(link.ca, id1), NewFrameStream(link.cb, id1)
@@ -1016,11 +1016,22 @@ func TestVerifC10TunnelIDs(t *testing.T) {
 		wg.Wait()
 		// B closes its side of tunnel 1, A consumes that Close frame
 		var back c10RRes
-		if err := b1.Close(); err != nil {
-			t.Fatalf("c10: closing tunnel 1 on B: %v", err)
+		var closeErr error
+		cl1, _ := c10Judge(t1, &o1.w, &o1.r)
+		if !o1.w.timeout && !o1.r.timeout && cl1 == "" {
+			if closeErr = b1.Close(); closeErr == nil {
+				c10RunReader(a1, &c10Dir{BufClass: "small", ReadSeed: 1}, 0, &back)
+			}
 		}
-		c10RunReader(a1, &c10Dir{BufClass: "small", ReadSeed: 1}, 0, &back)
-		if cl, _ := c10Judge(t1, &o1.w, &o1.r); cl != "" || back.err != io.EOF || len(back.got) != 0 {
+		if o1.w.timeout || o1.r.timeout || back.timeout || c10IsTimeout(closeErr) {
+			run.Count("watchdog", 1)
+			link.close()
+			if run.Counter("watchdog") >= 3 {
+				break
+			}
+			continue
+		}
+		if cl1 != "" || closeErr != nil || back.err != io.EOF || len(back.got) != 0 {
 			// tunnel 1 alone is what the stream monitor checks; here it is only the set-up
 			run.Count("tunnel1_setup_not_clean", 1)
 			link.close()
